@@ -216,18 +216,21 @@ func Map(src execution.Node, idxs []int) execution.Node {
 	return nodes.NewMap(src, exprs)
 }
 func Unnest(src execution.Node, idx int) execution.Node { return nodes.NewUnnest(src, idx) }
-func Buffer(src execution.Node) execution.Node         { return nodes.NewEventTimeBuffer(src) }
+func Buffer(src execution.Node) execution.Node          { return nodes.NewEventTimeBuffer(src) }
 
 // ---- a source for poll: emits snapshot k on its k-th run and fails after the last one ----
 type SnapshotSource struct {
 	Rounds   [][]lib.Event
 	Calls    int
-	Returned bool // set when a run has just ended normally: the next watermark seen downstream is poll's own
+	Returned bool        // set when a run has just ended normally: the next watermark seen downstream is poll's own
+	Starts   []time.Time // when each run began / ended: poll reads its clock between the end of run k-1 and the start of run k
+	Ends     []time.Time
 }
 
 func (s *SnapshotSource) Run(ctx execution.ExecutionContext, produce execution.ProduceFn, metaSend execution.MetaSendFn) error {
 	k := s.Calls
 	s.Calls++
+	s.Starts = append(s.Starts, time.Now())
 	if k >= len(s.Rounds) {
 		return lib.ErrInjected
 	}
@@ -235,11 +238,19 @@ func (s *SnapshotSource) Run(ctx execution.ExecutionContext, produce execution.P
 		return err
 	}
 	s.Returned = true
+	s.Ends = append(s.Ends, time.Now())
 	return nil
 }
 
+var ErrTooManyRecords = fmt.Errorf("verif: the node emitted more records than the case can account for")
+
 // RunRecording is lib.RunNode plus a callback on every watermark (used to tell poll's own watermarks apart).
 func RunRecording(n execution.Node, onWM func(index int)) (out []lib.Event, err error, panicked interface{}) {
+	return RunLimited(n, onWM, 1<<30)
+}
+
+// RunLimited stops a runaway node: produce fails once more than limit events were recorded.
+func RunLimited(n execution.Node, onWM func(index int), limit int) (out []lib.Event, err error, panicked interface{}) {
 	defer func() {
 		if p := recover(); p != nil {
 			panicked = p
@@ -250,6 +261,9 @@ func RunRecording(n execution.Node, onWM func(index int)) (out []lib.Event, err 
 		func(ctx execution.ProduceContext, record execution.Record) error {
 			vals := make([]octosql.Value, len(record.Values))
 			copy(vals, record.Values)
+			if len(out) >= limit {
+				return ErrTooManyRecords
+			}
 			out = append(out, lib.Event{Rec: execution.NewRecord(vals, record.Retraction, record.EventTime)})
 			return nil
 		},
